@@ -434,12 +434,29 @@ def run_sys_block(case):
     start, count = case["block"]
     stride = case.get("stride", 1)
     checked = 0
-    for mi in range(start, start + count * stride, stride):
+    # masks that are also routed through the public constructor (derivative_keys_dict -> per-unknown losses): the two
+    # one-unknown-only masks and every 16th mask of the block
+    per_unknown = len(SYS_TERMS) * len(GROUPS)
+    via_ctor = {(1 << per_unknown) - 1, ((1 << per_unknown) - 1) << per_unknown}
+    todo = list(range(start, start + count * stride, stride))
+    via_ctor |= set(todo[::16])
+    for mi in sorted(set(todo) | via_ctor):
         bits = sys_bits(mi)
         g, t, terms = jg(with_masks(loss, mi), params, batch)
         if not np.array_equal(np.asarray(t), np.asarray(t0)):
             return fail("loss-value-depends-on-derivative-keys", {"mask": mi, "system": True}, labels=labels)
         fl = _sys_flat(g)
+        if mi in via_ctor:
+            loss_c, _, _ = build_system(spec, derivative_keys_dict=make_sys_dk(bits))
+            gc, tc, _ = jg(loss_c, params, batch)
+            flc = _sys_flat(gc)
+            if not np.array_equal(np.asarray(tc), np.asarray(t0)):
+                return fail("loss-value-depends-on-derivative-keys", {"mask": mi, "system": True, "via": "constructor"}, labels=labels)
+            for k in fl:
+                if not np.array_equal(flc[k], fl[k]):
+                    return fail("gradient-routing:system-derivative_keys_dict-not-applied-per-unknown",
+                                {"mask": mi, "group": k, "via_constructor": flc[k][:3].tolist(), "direct": fl[k][:3].tolist()},
+                                labels=labels)
         want = {k: base[k].copy() for k in base}
         for n in SYS_UNKNOWNS:
             for tname in SYS_TERMS:
